@@ -152,6 +152,8 @@ class PFlow(BaseRoutine):
         logger.debug("Max. algeb mismatch %.10g on %s", gmax, system.dae.y_name[gmax_idx])
 
         mis = max(abs(fmax), abs(gmax))
+        if np.isnan(fmax) or np.isnan(gmax):
+            mis = np.nan  # `max` drops NaN depending on the argument order
         system.vars_to_models()
 
         return mis
